@@ -166,6 +166,12 @@ def check_premises(ctx, prog, rule, required):
 
 
 def _std_upper(name):
+    m0 = re.match(r"(?:num|usize|u64|u32)::from\((.*)\)$|(?:T|u16|u8)::into\((.*)\)$", name)
+    if m0:
+        return _std_upper(m0.group(1) or m0.group(2))     # a lossless integer conversion keeps the bound
+    mw = re.match(r"u(8|16|32)::from_be_bytes\(", name)
+    if mw:
+        return (1 << int(mw.group(1))) - 1          # the width is in the name
     m = re.match(r"(?:num|u\d+)::from_be_bytes\(array\((.*)\)\)$", name)
     if m:
         k = m.group(1).count(", ") + 1
